@@ -130,6 +130,13 @@ def structured(acc: Acc, cc: CmdCtx, others):
             judge(acc, cc, F[:i] + b"\x5a" + F[i:], "insert:%d" % i)
     for o in others:
         judge(acc, cc, o.F, "foreign:%s-%s" % (o.framing, o.kind if isinstance(o.kind, str) else "fixed"))
+    if cc.kind == "read":
+        # well-formed, self-consistent read answers of every other payload length 0..255 (odd ones included): several fields
+        # deviate together (byte count, MBAP/AA55 length, payload, checksum), which no single-byte mutation reaches
+        for L in range(256):
+            if L != len(cc.payload):
+                pl = bytes((cc.payload[i % len(cc.payload)] if cc.payload else (i * 7 + 1) & 0xFF) for i in range(L))
+                judge(acc, cc, conforming(cc.framing, "read", cc.addr, cc.reg, cc.arg, pl)[0], "wronglen:%d" % L, counted=True)
     if cc.framing in ("rtu", "tcp"):
         fc = {"read": 3, "write": 6, "write_multi": 16}[cc.kind]
         for code in (0, 1, 2, 3, 4, 11, 255):
